@@ -1,6 +1,13 @@
 /- Driver family `parsers`: C05 — parser totality.  See harness/src/fam/parsers.rs for the protocol. -/
 import Driver.Common
 import MilaModel.Model.Parsers
+import MilaModel.Model.TextArchive
+import MilaModel.Model.Fe9Arc
+import MilaModel.Model.Arc
+import MilaModel.Model.Aset
+import MilaModel.Model.AssetBinary
+import Driver.Aset
+import Driver.Asset
 
 namespace Driver.Parsers
 open Mila Mila.BinArchive
@@ -57,10 +64,80 @@ def runBin (e : Endian) (bytes : Bytes) : Outcome :=
   | .err _ => { cls := "err", dump := none, reser := "-", requests := Parsers.binRequests e bytes }
   | .panic => { cls := "panic", dump := none, reser := "-", requests := [] }
 
+def optClean : Option Bytes → Bool
+  | some b => !hasReplacement b
+  | none => true
+
+def runText (f : TextFormat) (e : Endian) (bytes : Bytes) : Outcome :=
+  let reqs := Parsers.binRequests e bytes
+  match TextArchive.fromBytes sjisSub bytes f e with
+  | .ok t =>
+    let sj := f == .shiftJIS
+    let clean := !hasReplacement t.title &&
+      t.entries.all (fun p => !hasReplacement p.1 && (!sj || !hasReplacement p.2))
+    let ents := joinComma (t.entries.map (fun p => s!"{hexOfBytes p.1}={hexOfBytes p.2}"))
+    { cls := "ok", dump := some { clean := clean, text := s!"title={hexOfBytes t.title} entries=[{ents}]", coarse := "text" },
+      reser := classOf (TextArchive.serialize sjisSub t), requests := reqs }
+  | .err _ => { cls := "err", dump := none, reser := "-", requests := reqs }
+  | .panic => { cls := "panic", dump := none, reser := "-", requests := [] }
+
+def strLe (a b : String) : Bool := !(b < a)
+
+def runArc (bytes : Bytes) : Outcome :=
+  let reqs := Parsers.binRequests .little bytes
+  -- the two arithmetic profiles agree (Props.C16.arc_profile_independent); the driver runs `checked`
+  match Arc.fromBytes sjisSub .checked bytes with
+  | .ok m =>
+    let clean := m.all (fun p => !hasReplacement p.1)
+    let items := (m.map (fun p => s!"{hexOfBytes p.1}={hexOfBytes p.2}")).mergeSort strLe
+    { cls := "ok", dump := some { clean := clean, text := s!"files=[{joinComma items}]", coarse := "arc" },
+      reser := "-", requests := reqs }
+  | .err _ => { cls := "err", dump := none, reser := "-", requests := reqs }
+  | .panic => { cls := "panic", dump := none, reser := "-", requests := [] }
+
+def runPack (bytes : Bytes) : Outcome :=
+  match Fe9Arc.parse sjisSub bytes with
+  | .ok m =>
+    let clean := m.all (fun p => !hasReplacement p.1)
+    let items := m.map (fun p => s!"{hexOfBytes p.1}={hexOfBytes p.2}")
+    { cls := "ok", dump := some { clean := clean, text := s!"files=[{joinComma items}]", coarse := "pack" },
+      reser := classOf (Fe9Arc.serialize sjisSub m), requests := [] }
+  | .err _ => { cls := "err", dump := none, reser := "-", requests := [] }
+  | .panic => { cls := "panic", dump := none, reser := "-", requests := [] }
+
+def runAset (bytes : Bytes) : Outcome :=
+  let reqs := Parsers.binRequests .little bytes
+  match (parse sjisSub .little bytes).bind Aset.fromArchive with
+  | .ok f =>
+    let clean := optClean f.metaStr && f.animClipTable.all optClean && f.sets.all (·.all optClean)
+    { cls := "ok", dump := some { clean := clean, text := Driver.Aset.showFile f, coarse := s!"nsets={f.sets.length}" },
+      reser := classOf (Aset.serialize sjisSub f), requests := reqs }
+  | .err _ => { cls := "err", dump := none, reser := "-", requests := reqs }
+  | .panic => { cls := "panic", dump := none, reser := "-", requests := [] }
+
+def runAsset (bytes : Bytes) : Outcome :=
+  let reqs := Parsers.binRequests .little bytes
+  match (parse sjisSub .little bytes).bind Asset.fromArchive with
+  | .ok b =>
+    let clean := b.specs.all (fun s => optClean s.name && s.strs.all optClean)
+    { cls := "ok", dump := some { clean := clean, text := Driver.Asset.showBinary b,
+                                  coarse := s!"flags={b.flags} nspecs={b.specs.length}" },
+      reser := classOf (Asset.serialize sjisSub b), requests := reqs }
+  | .err _ => { cls := "err", dump := none, reser := "-", requests := reqs }
+  | .panic => { cls := "panic", dump := none, reser := "-", requests := [] }
+
 def runEntry (entry : String) (bytes : Bytes) : Option Outcome :=
   match entry with
   | "binLE" => some (runBin .little bytes)
   | "binBE" => some (runBin .big bytes)
+  | "textSjisLE" => some (runText .shiftJIS .little bytes)
+  | "textSjisBE" => some (runText .shiftJIS .big bytes)
+  | "textUniLE" => some (runText .unicode .little bytes)
+  | "textUniBE" => some (runText .unicode .big bytes)
+  | "arc" => some (runArc bytes)
+  | "pack" => some (runPack bytes)
+  | "aset" => some (runAset bytes)
+  | "asset" => some (runAsset bytes)
   | _ => none
 
 def bound (len : Nat) : Nat := 256 * len + 65536
